@@ -2,6 +2,8 @@ use std::any::Any;
 use std::sync::Arc;
 
 pub mod time;
+#[cfg(sentinel_verif)]
+pub mod verif_clock;
 
 pub use self::time::*;
 
